@@ -65,17 +65,29 @@ package state
 //@ ghost func OwnsNodes(id signature.PublicKey) bool { return ufb("entityOwnsNodes", id, kvDomain()) }
 //@ ghost func OwnsRuntimes(id signature.PublicKey) bool { return ufb("entityOwnsRuntimes", id, kvDomain()) }
 
+//@ ghost var GIdxEq int
+
 //@ func ImmutableState.HasEntityNodes
-//@   trusted
-//@   modifies nothing
-//@   ensures err == nil ==> result0 == OwnsNodes(id)
+//@   props C17
+//@   requires s != nil
+//@   trustframe
+//@   modifies GIdxEq
+//@   ensures-trusted err == nil ==> result0 == OwnsNodes(id)
+//@   ensures err == nil ==> result0 == (GIdxEq > old(GIdxEq))
+//@   precall mkvs\.Iterator\)\.Seek$ :: keyId(argAs[[]byte](0)) == keyOf(signedNodeByEntityKeyFmt, id)
 //@   note a function of the by-entity node index, i.e. of the set of keys in the tree
+//@   note partially verified (was trusted): the scan starts at the entity's own index prefix, and the answer is "yes" exactly when the first index entry found there decodes to this entity - nothing else (no other table, no later entry) decides it; what the index MEANS (OwnsNodes) stays assumed
 //@   ensures err != nil ==> unavail(err)
 
 //@ func ImmutableState.HasEntityRuntimes
-//@   trusted
-//@   modifies nothing
-//@   ensures err == nil ==> result0 == OwnsRuntimes(id)
+//@   props C17
+//@   requires s != nil
+//@   trustframe
+//@   modifies GIdxEq
+//@   ensures-trusted err == nil ==> result0 == OwnsRuntimes(id)
+//@   ensures err == nil ==> result0 == (GIdxEq > old(GIdxEq))
+//@   precall mkvs\.Iterator\)\.Seek$ :: keyId(argAs[[]byte](0)) == keyOf(runtimeByEntityKeyFmt, id)
+//@   note partially verified (was trusted): as for nodes - an index entry of the entity means "owns a runtime", whatever table (active, suspended) the runtime is in (seed C17_i skipped index entries whose runtime is not in the ACTIVE table: an entity with a suspended runtime could deregister, leaving the runtime and its stake claim behind)
 //@   ensures err != nil ==> unavail(err)
 
 //@ func ImmutableState.NodeStatus
